@@ -5,6 +5,7 @@ from __future__ import annotations
 import numpy as np
 from hypothesis import strategies as st
 
+from mzverif import core
 from mzverif import gen as G
 from mzverif import lib as L
 from mzverif import model as M
@@ -28,15 +29,24 @@ ASSUMPTIONS = [
 KINDS = ["lattice", "targeted", "solved"]
 
 
-def _build(kind, g, sol, dtype="int64", meta=None):
+def _build(kind, g, sol, dtype="int64", meta=None, form="array"):
+    """`form`: the container the coordinates arrive in (array of the given dtype, tuple(s), list(s)) - not part of a maze's value"""
     cl = M.g_cl(g)
     from maze_dataset.maze.lattice_maze import LatticeMaze, SolvedMaze, TargetedLatticeMaze
+
+    def co(x):
+        if form == "tuple":
+            return tuple(int(v) for v in x)
+        if form == "list":
+            return [int(v) for v in x]
+        return np.array(x, dtype=dtype)
 
     if kind == "lattice":
         return LatticeMaze(connection_list=cl, generation_meta=meta)
     if kind == "targeted":
-        return TargetedLatticeMaze(connection_list=cl, start_pos=np.array(sol[0], dtype=dtype), end_pos=np.array(sol[-1], dtype=dtype), generation_meta=meta)
-    return SolvedMaze(connection_list=cl, solution=np.array(sol, dtype=dtype), generation_meta=meta)
+        return TargetedLatticeMaze(connection_list=cl, start_pos=co(sol[0]), end_pos=co(sol[-1]), generation_meta=meta)
+    solution = np.array(sol, dtype=dtype) if form == "array" else ([co(q) for q in sol] if form == "list" else tuple(co(q) for q in sol))
+    return SolvedMaze(connection_list=cl, solution=solution, generation_meta=meta)
 
 
 def _struct(kind, g, sol):
@@ -77,7 +87,8 @@ def check_pair(case: dict):
     else:
         raise ValueError(op)
     a = call(f"C09:{ka}:construct-valid", _build, ka, g, sol)
-    b = a if same_obj else call(f"C09:{kb}:construct-valid", _build, kb, gb, solb, dtype=dtype_b, meta=meta_b)
+    form_b = ("array", "array", "tuple", "list")[core.digest(case) % 4]
+    b = a if same_obj else call(f"C09:{kb}:construct-valid", _build, kb, gb, solb, dtype=dtype_b, meta=meta_b, form=form_b)
     want = _struct(ka, g, sol) == _struct(kb, gb, solb)
     sig = f"C09:{ka}" if ka == kb else f"C09:{ka}-vs-{kb}"
     for nm, fn, exp in (("eq", lambda: a == b, want), ("eq-rev", lambda: b == a, want), ("ne", lambda: a != b, not want)):
@@ -108,12 +119,15 @@ def check_bounds(case: dict):
     inb = all(0 <= p[0] < r and 0 <= p[1] < c for p in (s, e))
     from maze_dataset.maze.lattice_maze import SolvedMaze, TargetedLatticeMaze
 
+    form = ("array", "array", "tuple", "list")[core.digest(case) % 4]
+    co = (lambda x: np.array(x)) if form == "array" else ((lambda x: tuple(x)) if form == "tuple" else (lambda x: list(x)))
+
     def build():
         if kind == "targeted":
             if case.get("via") == "from_lattice_maze":
-                return TargetedLatticeMaze.from_lattice_maze(L.lattice(g), np.array(s), np.array(e))
-            return TargetedLatticeMaze(connection_list=M.g_cl(g), start_pos=np.array(s), end_pos=np.array(e))
-        return SolvedMaze(connection_list=M.g_cl(g), solution=np.array([s, e]))
+                return TargetedLatticeMaze.from_lattice_maze(L.lattice(g), co(s), co(e))
+            return TargetedLatticeMaze(connection_list=M.g_cl(g), start_pos=co(s), end_pos=co(e))
+        return SolvedMaze(connection_list=M.g_cl(g), solution=np.array([s, e]) if form == "array" else [co(s), co(e)])
 
     try:
         m = build()
